@@ -123,6 +123,13 @@ func (f *compressFilter) Do(cmd string, req *simpleRequest) FilterStatus {
 		return Continue
 	}
 
+	// the filter chain runs again when a request is re-sent after a
+	// redirection: the values are already compressed and the hook registered.
+	if req.cpsFiltered {
+		return Continue
+	}
+	req.cpsFiltered = true
+
 	// register decompression hook if needed.
 	if _, ok := wkSkipCheckCmdsInDecps[cmd]; !ok {
 		req.RegisterHook(func(request *simpleRequest) {
